@@ -510,7 +510,7 @@ func encNames(ss []string) []int64 {
 	}
 	return out
 }
-func encInts(xs []int) []int64 {
+func c17EncInts(xs []int) []int64 {
 	out := []int64{int64(len(xs))}
 	for _, x := range xs {
 		out = append(out, int64(x))
@@ -521,7 +521,7 @@ func encOptInts(xs []int) []int64 {
 	if xs == nil {
 		return []int64{-1}
 	}
-	return append([]int64{1}, encInts(xs)...)
+	return append([]int64{1}, c17EncInts(xs)...)
 }
 
 // the Capture / Ref / BackRefCond nodes in pattern order (children of right-to-left concatenations were reversed by the parser)
@@ -606,7 +606,7 @@ func c17RunImpl(pat string, m gMode, numKeys []int64, nameKeys []string, dollarK
 	}
 	sort.Ints(keys)
 	out := []int64{0}
-	out = append(out, encInts(keys)...)
+	out = append(out, c17EncInts(keys)...)
 	out = append(out, encOptInts(tree.Capnumlist)...)
 	out = append(out, int64(tree.Captop))
 	if tree.Capnames == nil {
@@ -653,7 +653,7 @@ func c17RunImpl(pat string, m gMode, numKeys []int64, nameKeys []string, dollarK
 	res.re = re
 	out = append(out, encNames(re.GetGroupNames())...)
 	out = append(out, 0)
-	out = append(out, encInts(re.GetGroupNumbers())...)
+	out = append(out, c17EncInts(re.GetGroupNumbers())...)
 	for _, k := range numKeys {
 		out = append(out, encName(re.GroupNameFromNumber(int(k)))...)
 		v, e := dollarSlot("${"+strconv.FormatInt(k, 10)+"}", code, capnames, m.Opts)
